@@ -26,6 +26,8 @@ import Props.C18
 import Proofs.SplitSuccess
 import Proofs.JoinSuccess
 import Proofs.WrapSuccess
+import Proofs.LiftSuccess
+import Proofs.LiftSplit
 namespace PM.C12
 open PM
 
@@ -905,5 +907,267 @@ example : wrapBuilds wrapPairSchema [(1, []), (2, [])] = false := by rfl
 example : wrapStep wrapPairSchema wrapPairDoc 1 2 0 [(1, []), (2, [])] = .error .failed := by rfl
 
 /-! ### WRAP-END -/
+/-! ### LIFT-BEGIN -/
+
+/-! ### an approved lift applies — when nothing has to be split
+
+    The unguarded statement
+      `liftTarget S doc a b depth = some (some target) → liftStep doc a b depth target = .ok st →
+         ∃ doc', S.apply st doc = .ok doc'`
+    is **false** for the model and for the code alike (upstream too), in two ways, both arising when the lift has
+    to *split* ancestors of the range (the range has siblings before or after it at some level `d`,
+    `target < d ≤ depth`):
+    (a) `can_cut` validates the siblings left behind on their own, but the node left behind also receives the
+        split-off copy of its deeper child (open finding C12-lift-split-invalid; `liftNestSchema` below: the first
+        item of a nested list);
+    (b) `lift_target` asks `node(target).can_replace(index, end_index, content)`, i.e. the target node with the
+        range's ancestor *removed* — but the copies the split leaves behind stay there as extra children
+        (`liftCopySchema` below: doc content `blockquote | paragraph+`, `doc(blockquote(p, p))`, lifting either
+        paragraph is approved — `doc(p)` is valid — and would give `doc(blockquote(p), p)`).
+    `liftFlatGuard` (PM/StructEdit.lean) says that nothing is split: at every level `d`, `target < d ≤ depth`, the
+    range starts at the first child and ends at the last — the two tests of `lift`'s loops.  Then the approval is
+    exactly the validity of the new child list of `node(target)`, up to the merge of the lifted text with its new
+    neighbours: `TextStable` (needed, for code and model: `liftTsSchema` below). -/
+
+/-- **`lift_target` approves ∧ nothing is split ∧ `TextStable` ⇒ `lift` succeeds** with a schema-valid document
+    that keeps the text and leaf nodes.  The range is a node range as `block_range` builds it: `from ≤ to`, `to`
+    inside the node at the range's depth, both ends at child boundaries of that node.  (`target < depth ≤` the
+    depths of both ends is implied by the approval.) -/
+theorem liftTarget_lift_applies_flat (S : Schema) (hts : C01.TextStable S) (doc : Node)
+    (a b depth target : Nat) (f t : RPos) (st : Step)
+    (hv : C01.Valid S doc) (hn : fnorm doc.kids = true)
+    (hf : doc.resolve a = some f) (ht : doc.resolve b = some t)
+    (hab : a ≤ b) (hend : b ≤ f.end_ depth)
+    (hfb : depth < f.depth ∨ f.textOffset = 0) (htb : depth < t.depth ∨ t.textOffset = 0)
+    (hg : liftFlatGuard doc a b depth target = true)
+    (hc : liftTarget S doc a b depth = some (some target))
+    (hb : liftStep doc a b depth target = .ok st) :
+    ∃ doc', S.apply st doc = .ok doc' ∧ C01.Valid S doc' ∧
+      (ftoks doc'.kids).filter Tok.isContent = (ftoks doc.kids).filter Tok.isContent := by
+  obtain ⟨htd, hdf, _⟩ := liftTarget_in_range S doc a b depth target f t hf ht hc
+  have hg' : liftFlatGuardR f t depth target = true := by simpa [liftFlatGuard, hf, ht] using hg
+  have hc' : liftTargetR S f t depth = some (some target) := by simpa [liftTarget, hf, ht] using hc
+  have hb' : liftStepR f t depth target = .ok st := by simpa [liftStep, hf, ht] using hb
+  have R := resolve_resolved hf
+  cases doc with
+  | text s m => have := R.depth_eq; simp [Node.kids, depthAt] at this; omega
+  | leaf ty at_ m => have := R.depth_eq; simp [Node.kids, depthAt] at this; omega
+  | elem ty0 a0 m0 K =>
+    obtain ⟨⟨doc', hap⟩, f', t', gs, ge, rfl, hpay⟩ :=
+      lift_flat_applies S hts ty0 a0 m0 K a b depth target f t st hf ht hv hn hab hend hfb htb hg' hc' hb'
+    exact ⟨doc', hap, C01.apply_valid S (.replaceAround f' t' gs ge ⟨[], 0, 0⟩ 0 true) _ doc' hv hpay hap,
+      lift_keeps_content S _ doc' a b depth target _ hab hb hap⟩
+
+/-- non-trivial instances of all hypotheses: `doc(blockquote(p("a")))`, lifting the only paragraph -/
+private def liftDoc : Node := .elem 0 [] [] [.elem 1 [] [] [.elem 2 [] [] [.text [97] []]]]
+
+example : liftTarget exSchema liftDoc 2 3 1 = some (some 0) := by rfl
+example : liftFlatGuard liftDoc 2 3 1 0 = true := by rfl
+example : liftStep liftDoc 2 3 1 0 = .ok (.replaceAround 0 5 1 4 ⟨[], 0, 0⟩ 0 true) := by rfl
+example : ∃ doc', exSchema.apply (.replaceAround 0 5 1 4 ⟨[], 0, 0⟩ 0 true) liftDoc = .ok doc' ∧
+    C01.Valid exSchema doc' ∧
+    (ftoks doc'.kids).filter Tok.isContent = (ftoks liftDoc.kids).filter Tok.isContent :=
+  liftTarget_lift_applies_flat exSchema ex_stable liftDoc 2 3 1 0 _ _ _ rfl rfl rfl rfl (by decide) (by decide)
+    (.inl (by decide)) (.inl (by decide)) rfl rfl rfl
+
+/-- … and two levels at once: `doc: (A | p)+`, `A: B+`, `B: p+`; in `doc(A(B(p("a"))))` the paragraph cannot go
+    into `A`, it is lifted to depth 0 through both wrappers (`ReplaceAroundStep(0, 7, 2, 5, Slice.empty, 0)`) -/
+private def lift2Schema : Schema :=
+  { nodes := #[exNT "doc" false false #[⟨false, [(1, 1), (3, 1)]⟩, ⟨true, [(1, 1), (3, 1)]⟩],
+      exNT "A" false false #[⟨false, [(2, 1)]⟩, ⟨true, [(2, 1)]⟩],
+      exNT "B" false false #[⟨false, [(3, 1)]⟩, ⟨true, [(3, 1)]⟩],
+      exNT "p" false true #[⟨true, [(4, 0)]⟩], exNT "text" true false #[⟨true, []⟩]],
+    marks := #[], top := 0, textTy := 4 }
+
+private def lift2Doc : Node :=
+  .elem 0 [] [] [.elem 1 [] [] [.elem 2 [] [] [.elem 3 [] [] [.text [97] []]]]]
+
+example : liftTarget lift2Schema lift2Doc 3 4 2 = some (some 0) := by rfl
+example : ∃ doc', lift2Schema.apply (.replaceAround 0 7 2 5 ⟨[], 0, 0⟩ 0 true) lift2Doc = .ok doc' ∧
+    C01.Valid lift2Schema doc' ∧
+    (ftoks doc'.kids).filter Tok.isContent = (ftoks lift2Doc.kids).filter Tok.isContent :=
+  liftTarget_lift_applies_flat lift2Schema (textStable_of_C _ (by decide)) lift2Doc 3 4 2 0 _ _ _ rfl rfl rfl rfl
+    (by decide) (by decide) (.inl (by decide)) (.inl (by decide)) rfl rfl rfl
+
+/-- the guard is needed, (b): `doc: blockquote | paragraph+`; in `exDoc = doc(blockquote(p("a"), p("b")))` lifting
+    the second paragraph is approved (`doc(p("b"))` is valid) … -/
+private def liftCopySchema : Schema :=
+  { nodes := #[exNT "doc" false false #[⟨false, [(1, 1), (2, 2)]⟩, ⟨true, []⟩, ⟨true, [(2, 2)]⟩],
+      exNT "blockquote" false false #[⟨false, [(2, 1)]⟩, ⟨true, [(2, 1)]⟩],
+      exNT "paragraph" false true #[⟨true, [(3, 0)]⟩], exNT "text" true false #[⟨true, []⟩]],
+    marks := #[], top := 0, textTy := 3 }
+
+example : C01.Valid liftCopySchema exDoc := by rfl
+example : textStableC liftCopySchema = true := by decide
+example : liftTarget liftCopySchema exDoc 5 6 1 = some (some 0) := by rfl
+/-- … the blockquote has to be split before it … -/
+example : liftFlatGuard exDoc 5 6 1 0 = false := by rfl
+example : liftStep exDoc 5 6 1 0 = .ok (.replaceAround 4 8 4 7 ⟨[.elem 1 [] [] []], 1, 0⟩ 1 true) := by rfl
+/-- (a structure-flagged replace-around step, evaluated from its parts) -/
+private theorem apply_around_of_parts (S : Schema) (doc : Node) (f t gf gt : Nat) (sl : Slice) (i : Nat)
+    (gap : List Node) (ins : Slice) (r : Res Node)
+    (h1 : contentBetween doc f gf = some false) (h2 : contentBetween doc gt t = some false)
+    (h3 : doc.slice gf gt = .ok ⟨gap, 0, 0⟩) (h4 : sl.insertAt S i gap = .ok (some ins))
+    (h5 : S.fromReplace doc f t ins = r) : S.apply (.replaceAround f t gf gt sl i true) doc = r := by
+  simp [Schema.apply, h1, h2, h3, h4, h5]
+
+/-- … and the step is refused: `doc(blockquote(p("a")), p("b"))` is not valid content of `doc` -/
+example : liftCopySchema.apply (.replaceAround 4 8 4 7 ⟨[.elem 1 [] [] []], 1, 0⟩ 1 true) exDoc
+    = .error .failed := by
+  refine apply_around_of_parts liftCopySchema exDoc 4 8 4 7 _ 1 [.elem 2 [] [] [.text [98] []]]
+    ⟨[.elem 1 [] [] [], .elem 2 [] [] [.text [98] []]], 1, 0⟩ _ rfl rfl ?_ ?_ ?_
+  · simp [Node.slice, exDoc, Node.kids, sliceKids, inRange, sliceScan, sliceHere, fcut, fcutLoop, depthAt]
+  · simp [Slice.insertAt, insertInto, flatInsert, fcut, fappend, addNode]
+  · have hv : liftCopySchema.validContent 0
+        [.elem 1 [] [] [.elem 2 [] [] [.text [97] []]], .elem 2 [] [] [.text [98] []]] = false := by decide
+    have hv1 : liftCopySchema.validContent 1 [.elem 2 [] [] [.text [97] []]] = true := by decide
+    simp [Schema.fromReplace, Schema.replace, exDoc, replaceKids, hv, hv1, rightJoin, middle, RSplit.rest,
+      inRange, depthAt, Slice.wf, spineL, spineR, outer, atLevel, threeWay, threeWay.rightJoinCheck, twoWay,
+      splitRight, Schema.close, fromArray, addNodes, addNode, Except.map, Schema.compatibleContent]
+
+/-- the guard is needed, (a) (open finding C12-lift-split-invalid): `doc: list+`, `list: item+`, `item: p list?`;
+    in `doc(list(item(p, list(item(p), item(p)))))` lifting the first inner item (`NodeRange(5, 9, 3)`, also what
+    `block_range` gives at position 6) to depth 1 is approved: `can_cut` finds `item(p)` and `list(item(p))` valid —
+    but the right half of the split outer item is `item(list(item(p)))`, without its leading paragraph -/
+private def liftNestSchema : Schema :=
+  { nodes := #[exNT "doc" false false #[⟨false, [(1, 1)]⟩, ⟨true, [(1, 1)]⟩],
+      exNT "list" false false #[⟨false, [(2, 1)]⟩, ⟨true, [(2, 1)]⟩],
+      exNT "item" false false #[⟨false, [(3, 1)]⟩, ⟨true, [(1, 2)]⟩, ⟨true, []⟩],
+      exNT "p" false true #[⟨true, [(4, 0)]⟩], exNT "text" true false #[⟨true, []⟩]],
+    marks := #[], top := 0, textTy := 4 }
+
+private def liftNestDoc : Node :=
+  .elem 0 [] [] [.elem 1 [] [] [.elem 2 [] [] [.elem 3 [] [] [],
+    .elem 1 [] [] [.elem 2 [] [] [.elem 3 [] [] []], .elem 2 [] [] [.elem 3 [] [] []]]]]]
+
+example : C01.Valid liftNestSchema liftNestDoc := by rfl
+example : textStableC liftNestSchema = true := by decide
+example : liftTarget liftNestSchema liftNestDoc 5 9 3 = some (some 1) := by rfl
+example : liftFlatGuard liftNestDoc 5 9 3 1 = false := by rfl
+example : liftStep liftNestDoc 5 9 3 1 = .ok (.replaceAround 4 9 5 9
+    ⟨[.elem 2 [] [] [], .elem 2 [] [] [.elem 1 [] [] []]], 1, 2⟩ 1 true) := by rfl
+example : liftNestSchema.apply (.replaceAround 4 9 5 9
+    ⟨[.elem 2 [] [] [], .elem 2 [] [] [.elem 1 [] [] []]], 1, 2⟩ 1 true) liftNestDoc = .error .failed := by
+  refine apply_around_of_parts liftNestSchema liftNestDoc 4 9 5 9 _ 1 [.elem 2 [] [] [.elem 3 [] [] []]]
+    ⟨[.elem 2 [] [] [], .elem 2 [] [] [.elem 3 [] [] []], .elem 2 [] [] [.elem 1 [] [] []]], 1, 2⟩ _ rfl rfl ?_ ?_ ?_
+  · simp [Node.slice, liftNestDoc, Node.kids, sliceKids, inRange, sliceScan, sliceHere, fcut, fcutLoop, depthAt]
+  · simp [Slice.insertAt, insertInto, flatInsert, fcut, fcutLoop, fappend, addNode]
+  · have hv : liftNestSchema.validContent 2 [.elem 1 [] [] [.elem 2 [] [] [.elem 3 [] [] []]]] = false := by decide
+    have hv1 : liftNestSchema.validContent 2 [.elem 3 [] [] []] = true := by decide
+    have hv2 : liftNestSchema.validContent 1 [.elem 2 [] [] [.elem 3 [] [] []]] = true := by decide
+    simp [Schema.fromReplace, Schema.replace, liftNestDoc, replaceKids, hv, hv1, hv2, rightJoin,
+      inRange, depthAt, Slice.wf, spineL, spineR, outer, atLevel, threeWay, threeWay.rightJoinCheck, twoWay,
+      splitRight, Schema.close, fromArray, addNodes, addNode, Except.map, Schema.compatibleContent]
+
+/-- `TextStable` is needed (nothing is split here): `p: (text|image) (text|image|span) (text|image)`, `span`
+    inline with content `text*`; in `doc(p("a", span("b"), "c"))` lifting `"b"` out of the span
+    (`NodeRange(3, 4, 2)`) is approved: `can_replace` accepts `text text text` — the replace merges them into
+    `p("abc")` and `p` refuses a single child (`TransformError('Invalid content for node p')`) -/
+private def liftTsSchema : Schema :=
+  { nodes := #[exNT "doc" false false #[⟨false, [(1, 1)]⟩, ⟨true, [(1, 1)]⟩],
+      exNT "p" false true #[⟨false, [(3, 1), (4, 1)]⟩, ⟨false, [(3, 2), (4, 2), (2, 2)]⟩,
+        ⟨false, [(3, 3), (4, 3)]⟩, ⟨true, []⟩],
+      { exNT "span" false true #[⟨true, [(3, 0)]⟩] with isInline := true },
+      exNT "text" true false #[⟨true, []⟩],
+      { exNT "image" true false #[⟨true, []⟩] with isText := false }],
+    marks := #[], top := 0, textTy := 3 }
+
+private def liftTsDoc : Node :=
+  .elem 0 [] [] [.elem 1 [] [] [.text [97] [], .elem 2 [] [] [.text [98] []], .text [99] []]]
+
+example : C01.Valid liftTsSchema liftTsDoc := by rfl
+example : fnorm liftTsDoc.kids = true := by rfl
+example : liftTarget liftTsSchema liftTsDoc 3 4 2 = some (some 1) := by rfl
+example : liftFlatGuard liftTsDoc 3 4 2 1 = true := by rfl
+example : liftStep liftTsDoc 3 4 2 1 = .ok (.replaceAround 2 5 3 4 ⟨[], 0, 0⟩ 0 true) := by rfl
+example : ¬ C01.TextStable liftTsSchema := by
+  intro h
+  have := h 1 0 1 2 (by rfl) (by rfl)
+  omega
+example : liftTsSchema.apply (.replaceAround 2 5 3 4 ⟨[], 0, 0⟩ 0 true) liftTsDoc = .error .failed := by
+  refine apply_around_of_parts liftTsSchema liftTsDoc 2 5 3 4 _ 0 [.text [98] []] ⟨[.text [98] []], 0, 0⟩ _ rfl rfl ?_
+    (insertAt_empty _ _) ?_
+  · simp [Node.slice, liftTsDoc, Node.kids, sliceKids, inRange, sliceScan, sliceHere, fcut, depthAt]
+  · have hv : liftTsSchema.validContent 1 [.text [97, 98, 99] []] = false := by decide
+    simp [Schema.fromReplace, Schema.replace, liftTsDoc, replaceKids, hv,
+      inRange, depthAt, Slice.wf, spineL, spineR, outer, atLevel, fcut, fcutLoop, fappend, addNode, Except.map]
+
+/-! ### an approved lift applies — in general, given that the pieces the split leaves behind are valid
+
+    `liftGuard` (PM/StructEdit.lean) recomputes, level by level, the node the split leaves before the range (the
+    children before it plus the copy left one level deeper) and the one it leaves after it, asks that each is valid
+    content for its type — failure (a) above — and that `node(target)` accepts its new child list *with the two
+    copies in place* — failure (b).  When nothing is split it is the approval itself
+    (`liftTarget_lift_applies_flat`).  The tie evaluates it at every approved lift: it held exactly where the real
+    `lift` succeeded (in `TextStable` schemas). -/
+
+/-- **`lift_target` approves ∧ `liftGuard` ∧ `TextStable` ⇒ `lift` succeeds** with a schema-valid document that
+    keeps the text and leaf nodes — whether or not ancestors of the range have to be split. -/
+theorem liftTarget_lift_applies (S : Schema) (hts : C01.TextStable S) (doc : Node)
+    (a b depth target : Nat) (f t : RPos) (st : Step)
+    (hv : C01.Valid S doc) (hn : fnorm doc.kids = true)
+    (hf : doc.resolve a = some f) (ht : doc.resolve b = some t)
+    (hab : a ≤ b) (hend : b ≤ f.end_ depth)
+    (hfb : depth < f.depth ∨ f.textOffset = 0) (htb : depth < t.depth ∨ t.textOffset = 0)
+    (hg : liftGuard S doc a b depth target = true)
+    (hc : liftTarget S doc a b depth = some (some target))
+    (hb : liftStep doc a b depth target = .ok st) :
+    ∃ doc', S.apply st doc = .ok doc' ∧ C01.Valid S doc' ∧
+      (ftoks doc'.kids).filter Tok.isContent = (ftoks doc.kids).filter Tok.isContent := by
+  obtain ⟨htd, hdf, _⟩ := liftTarget_in_range S doc a b depth target f t hf ht hc
+  have hg' : liftGuardR S f t depth target = true := by simpa [liftGuard, hf, ht] using hg
+  have hc' : liftTargetR S f t depth = some (some target) := by simpa [liftTarget, hf, ht] using hc
+  have hb' : liftStepR f t depth target = .ok st := by simpa [liftStep, hf, ht] using hb
+  have R := resolve_resolved hf
+  cases doc with
+  | text s m => have := R.depth_eq; simp [Node.kids, depthAt] at this; omega
+  | leaf ty at_ m => have := R.depth_eq; simp [Node.kids, depthAt] at this; omega
+  | elem ty0 a0 m0 K =>
+    obtain ⟨⟨doc', hap⟩, f', t', gs, ge, sl, i, rfl, hpay⟩ :=
+      lift_applies S hts ty0 a0 m0 K a b depth target f t st hf ht hv hn hab hend hfb htb hg' hc' hb'
+    exact ⟨doc', hap, C01.apply_valid S (.replaceAround f' t' gs ge sl i true) _ doc' hv hpay hap,
+      lift_keeps_content S _ doc' a b depth target _ hab hb hap⟩
+
+/-- when nothing is split, `liftGuard` follows from the approval (`liftTarget_lift_applies_flat` is this special
+    case of `liftTarget_lift_applies`) -/
+theorem liftGuard_of_flat (S : Schema) (doc : Node) (a b depth target : Nat) (f t : RPos)
+    (hv : C01.Valid S doc) (hf : doc.resolve a = some f) (ht : doc.resolve b = some t)
+    (hab : a ≤ b) (hend : b ≤ f.end_ depth)
+    (hg : liftFlatGuard doc a b depth target = true)
+    (hc : liftTarget S doc a b depth = some (some target)) : liftGuard S doc a b depth target = true := by
+  have hg' : liftFlatGuardR f t depth target = true := by simpa [liftFlatGuard, hf, ht] using hg
+  have hc' : liftTargetR S f t depth = some (some target) := by simpa [liftTarget, hf, ht] using hc
+  simpa [liftGuard, hf, ht] using liftGuardR_of_flat S depth target hf ht hv hab hend hg' hc'
+
+/-- a non-trivial instance: lifting the second paragraph of `exDoc = doc(blockquote(p("a"), p("b")))` to the top
+    splits the blockquote in front of it -/
+example : liftFlatGuard exDoc 5 6 1 0 = false ∧ liftGuard exSchema exDoc 5 6 1 0 = true := ⟨rfl, rfl⟩
+example : ∃ doc', exSchema.apply (.replaceAround 4 8 4 7 ⟨[.elem 1 [] [] []], 1, 0⟩ 1 true) exDoc = .ok doc' ∧
+    C01.Valid exSchema doc' ∧
+    (ftoks doc'.kids).filter Tok.isContent = (ftoks exDoc.kids).filter Tok.isContent :=
+  liftTarget_lift_applies exSchema ex_stable exDoc 5 6 1 0 _ _ _ rfl rfl rfl rfl (by decide) (by decide)
+    (.inl (by decide)) (.inl (by decide)) rfl rfl rfl
+/-- … the first one: split behind it -/
+example : ∃ doc', exSchema.apply (.replaceAround 0 4 1 4 ⟨[.elem 1 [] [] []], 0, 1⟩ 0 true) exDoc = .ok doc' ∧
+    C01.Valid exSchema doc' ∧
+    (ftoks doc'.kids).filter Tok.isContent = (ftoks exDoc.kids).filter Tok.isContent :=
+  liftTarget_lift_applies exSchema ex_stable exDoc 2 3 1 0 _ _ _ rfl rfl rfl rfl (by decide) (by decide)
+    (.inl (by decide)) (.inl (by decide)) rfl rfl rfl
+/-- … and the middle one of three: split on both sides -/
+private def exDoc3 : Node :=
+  .elem 0 [] [] [.elem 1 [] [] [.elem 2 [] [] [.text [97] []], .elem 2 [] [] [.text [98] []],
+    .elem 2 [] [] [.text [99] []]]]
+example : ∃ doc', exSchema.apply (.replaceAround 4 7 4 7 ⟨[.elem 1 [] [] [], .elem 1 [] [] []], 1, 1⟩ 1 true) exDoc3
+      = .ok doc' ∧ C01.Valid exSchema doc' ∧
+    (ftoks doc'.kids).filter Tok.isContent = (ftoks exDoc3.kids).filter Tok.isContent :=
+  liftTarget_lift_applies exSchema ex_stable exDoc3 5 6 1 0 _ _ _ rfl rfl rfl rfl (by decide) (by decide)
+    (.inl (by decide)) (.inl (by decide)) rfl rfl rfl
+/-- in the two counterexamples above the guard does not hold -/
+example : liftGuard liftCopySchema exDoc 5 6 1 0 = false := by rfl
+example : liftGuard liftNestSchema liftNestDoc 5 9 3 1 = false := by rfl
+/-- … and where nothing is split it does -/
+example : liftGuard exSchema liftDoc 2 3 1 0 = true ∧ liftGuard lift2Schema lift2Doc 3 4 2 0 = true := ⟨rfl, rfl⟩
+
+/-! ### LIFT-END -/
 
 end PM.C12
